@@ -124,3 +124,12 @@ M("c10-try-covers-initial-wait", "C10", "break",
       "        try:\n            await asyncio.sleep(\n                random.uniform(\n                    self.timings.INITIAL_DELAY_MIN, self.timings.INITIAL_DELAY_MAX\n                )\n            )\n            self._send_offer()\n            self._can_answer_offers = True"))
 M("c10-twin-try-covers-first-offer", "C10,C12", "benign", (S, "        self._send_offer()\n\n        try:\n            self._can_answer_offers = True", "        try:\n            self._send_offer()\n            self._can_answer_offers = True"))
 M("c10-twin-delay-commuted", "C10", "benign", (S, "await asyncio.sleep((2 ** i) * self.timings.REPETITIONS_BASE_DELAY)\n                self._send_offer()", "await asyncio.sleep(self.timings.REPETITIONS_BASE_DELAY * (1 << i))\n                self._send_offer()"))
+
+# ---------------------------------------------------------------- C12
+M("c12-channel-branches-swapped", "C12", "break", (S, "        if received_over_multicast:\n            # R21-11", "        if not received_over_multicast:\n            # R21-11"))
+M("c12-answer-to-multicast-group", "C12", "break", (S, "                asyncio.get_event_loop().call_soon(func, addr)", "                asyncio.get_event_loop().call_soon(func)"))
+M("c12-only-first-instance-answers", "C12", "break", (S, "        for instance in matching_instances:\n            call(instance._send_offer)", "        call(matching_instances[0]._send_offer)"))
+M("c12-gate-ignores-flag", "C12", "break", (S, "        if not self._can_answer_offers:\n            # 4.2.1 SWS_SD_00319", "        if False:\n            # 4.2.1 SWS_SD_00319"))
+M("c12-wrong-delay-window", "C12", "break", (S, "                self.timings.REQUEST_RESPONSE_DELAY_MIN,\n                self.timings.REQUEST_RESPONSE_DELAY_MAX,", "                self.timings.REQUEST_RESPONSE_DELAY_MAX,\n                self.timings.REQUEST_RESPONSE_DELAY_MAX * 2,"))
+M("c12-everyone-answers", "C12", "break", (S, "            if instance.matches_find(entry, addr):\n                matching_instances.append(instance)", "            if instance.matches_find(entry, addr) or True:\n                matching_instances.append(instance)"))
+M("c12-twin-lambda-free-loop", "C12", "benign", (S, "        for instance in matching_instances:\n            call(instance._send_offer)", "        for inst in matching_instances:\n            call(inst._send_offer)"))
